@@ -751,7 +751,7 @@ class Note:
             result += f".{self.mode}"
         if self.accident is not None and self.is_note:
             result += f".{self.accident}"
-        if self.is_note or self.type == "x":
+        if self.is_note or self.type == "x" or self.is_drum:
             amp_figure = self.amp_figure
             if amp_figure != 'mf':
                 result += f".{self.amp_figure}"
